@@ -485,7 +485,7 @@ steps:
 			hmu.Lock()
 			sq := useStmt[-st.G]
 			hmu.Unlock()
-			for k := 0; sq != nil && k < 2000 && !closePending(sq); k++ {
+			for k := 0; sq != nil && k < 15000 && !closePending(sq); k++ {
 				time.Sleep(time.Millisecond)
 			}
 			if sq != nil && !closePending(sq) {
@@ -496,7 +496,7 @@ steps:
 			hmu.Lock()
 			sq := useStmt[-st.G]
 			hmu.Unlock()
-			for k := 0; sq != nil && k < 2000 && !stmtClosed(sq); k++ {
+			for k := 0; sq != nil && k < 15000 && !stmtClosed(sq); k++ {
 				time.Sleep(time.Millisecond)
 			}
 			if sq != nil && !stmtClosed(sq) {
